@@ -1,5 +1,6 @@
 import CoolerModel.Drv.JsonUtil
 import CoolerModel.Model.Unordered
+import CoolerModel.Model.GroupAgg
 open Lean
 namespace Cooler.Drv.C07
 open Cooler Cooler.Drv Cooler.Merge Cooler.Unordered
@@ -23,6 +24,25 @@ def handle : Handler := fun op a =>
         ("model_partition_valid", Json.bool (validBreakpoints comb part && perInputDone inputs part)),
         ("l1_agrees", Json.bool (decide (viaMerger = spec))),
         ("nchunks", jNat (merger inputs part).length)]
+  | "C07.merge_agg" => some do
+      -- merge with a requested aggregation on the value column
+      let inputs ← fld a "inputs" >>= listOf (listOf pxOf)
+      let n ← getNat a "n"
+      let buf ← getNat a "mergebuf"
+      let name ← getStr a "agg"
+      let agg : List Int → Int ← match name with
+        | "sum" => pure listSum
+        | "max" => pure (fun vs => match vs with | [] => 0 | v :: rest => rest.foldl max v)
+        | "min" => pure (fun vs => match vs with | [] => 0 | v :: rest => rest.foldl min v)
+        | "first" => pure (fun vs => vs.headD 0)
+        | "last" => pure (fun vs => vs.getLastD 0)
+        | "count" => pure (fun vs => (vs.length : Int))
+        | _ => throw s!"unknown agg {name}"
+      let comb := combinedIndex (inputs.map fun ps => csrIndex ps n)
+      let part := mergeBreakpoints comb buf
+      let spec := mergeSpecAgg agg inputs
+      return Json.mkObj [("spec", jPixels spec),
+        ("l1_agrees", Json.bool (decide ((mergerAgg agg inputs part).flatten = spec)))]
   | "C07.breakpoints" => some do
       let indexes ← fld a "indexes" >>= listOf (listOf natOf)
       let buf ← getNat a "bufsize"
